@@ -121,7 +121,7 @@ void run_alloc(uint64_t seed, const char* mode) {
     if (id.value >= minted) vrt_event("ORACLE minted new id %u although %zu freed ids exist", (unsigned)id.value, minted - live.size());
     if (id.value < 128 && owner[id.value] != -1) vrt_event("ORACLE dup id %u at quiescence", (unsigned)id.value);
   }
-  vrt_event("stats steps %lu switches %lu", vrt_steps(), vrt_switches());
+  vrt_event("stats steps %lu switches %lu stale %lu", vrt_steps(), vrt_switches(), vrt_stale_reads());
   vrt_end();
   vrt_dump(stdout);
 }
@@ -274,7 +274,7 @@ void run_box(uint64_t seed) {
   for (auto& p : published)
     if (p.returned > 0 && p.winners != 1)
       vrt_event("ORACLE %d takers obtained id %u@%u (%d takes returned)", p.winners, (unsigned)p.id.value, (unsigned)p.id.version, p.returned);
-  vrt_event("stats steps %lu switches %lu", vrt_steps(), vrt_switches());
+  vrt_event("stats steps %lu switches %lu stale %lu", vrt_steps(), vrt_switches(), vrt_stale_reads());
   vrt_end();
   vrt_dump(stdout);
 }
@@ -310,7 +310,7 @@ void run_threadid(uint64_t seed) {
     if (count != 1) vrt_event("ORACLE for_each reports %u live thread ids at quiescence, expected 1", count);
     if (ThreadId::end() > 1 + 4) vrt_event("ORACLE thread ids not reused: end=%u", (unsigned)ThreadId::end());
   }
-  vrt_event("stats steps %lu switches %lu", vrt_steps(), vrt_switches());
+  vrt_event("stats steps %lu switches %lu stale %lu", vrt_steps(), vrt_switches(), vrt_stale_reads());
   vrt_end();
   vrt_dump(stdout);
 }
